@@ -28,7 +28,7 @@ func init() {
 		if tier == "thorough" {
 			n = 900
 		}
-		return Plan{Runs: n, Race: true, Level: "exploration", Rule: "one run = eight concurrent phases (cold-start handshakes; concurrent first use of a location whose first download fails through all its retries; first use of a new multi-URL location while a refresh tick runs; handshakes overtaking a slow background first load; handshakes vs tick vs UpdateCRL vs forced background refresh; handshakes after a refresh that failed signature verification, then racing the refresh that recovers from it; OCSP lookups around cache expiry; handshakes vs Cleanup) with 2-6 client tasks over 1-2 validators, backend, fetch mode and preemption density drawn per run, executed under the race detector; non-trivial = at least 10 task switches happened inside a phase; distinct = distinct schedule fingerprints"}
+		return Plan{Runs: n, Race: true, Level: "exploration", Rule: "one run = nine concurrent phases (cold-start handshakes; in background mode two new locations met in quick succession; concurrent first use of a location whose first download fails through all its retries; first use of a new multi-URL location while a refresh tick runs; handshakes overtaking a slow background first load; handshakes vs tick vs UpdateCRL vs forced background refresh; handshakes after a refresh that failed signature verification, then racing the refresh that recovers from it; OCSP lookups around cache expiry; handshakes vs Cleanup) with 2-6 client tasks over 1-2 validators, backend, fetch mode and preemption density drawn per run, executed under the race detector; non-trivial = at least 10 task switches happened inside a phase; distinct = distinct schedule fingerprints"}
 	}, Run: runC13})
 }
 
@@ -241,6 +241,30 @@ func runC13(h *Harness) {
 			}
 			if ownOK {
 				h.Probe("phase1d:own-download-after-anothers-failure")
+			}
+		}
+	}
+	// ---------------------------------------------------------------- phase 1e: background mode, two new locations in quick succession
+	// With fetch_background a handshake only REQUESTS the load. The second new location arrives while the load requested
+	// for the first one is still downloading (slowly). Both requests are served: half a minute later - long before the
+	// next tick - both lists answer.
+	if fetch == "fetch_background" {
+		n0 := nodes[0]
+		la := w.NewLocation(LocOpts{Name: "L9a", URL: "http://crl9a.sim/i.crl", Issuer: w.A, NVers: 1, Extra: 2, Width: 16, Base: 9})
+		lb := w.NewLocation(LocOpts{Name: "L9b", URL: "http://crl9b.sim/j.crl", Issuer: w.A, NVers: 1, Extra: 2, Width: 17, Base: 10})
+		la.SlowFirst, la.Fetches = 3*time.Second, 0
+		c1 := spawn(n0, la, "never", nil)
+		waitAll([]*call{c1})
+		h.S.Run(func(v schedView) bool { return la.Fetches > 0 }, h.S.Now()+30*time.Second)
+		c2 := spawn(n0, lb, "never", nil)
+		waitAll([]*call{c2})
+		h.Settle(40 * time.Second)
+		for _, l := range []*Location{la, lb} {
+			c := spawn(n0, l, "common", nil)
+			waitAll([]*call{c})
+			h.R.Checks++
+			if v := errStr(c.hs.Err); v != "revoked" {
+				h.Violation("C13.verdict", "background-request-dropped", "phase 1e (fetch_background): 40 s after two new distribution points were met in quick succession (the second while the first one's background load was downloading), a certificate listed by %s is answered %s: the load requested for it never ran", l.Name, v)
 			}
 		}
 	}
